@@ -12,12 +12,7 @@ import vlib
 UNMASK = ["todo_operand", "p_neg", "p_as_var"]
 
 
-def run_syn(out, cases, seed, name, run_label):
-    d = vlib.workdir("c04-" + name)
-    path = os.path.join(d, "programs.ndjson")
-    with open(path, "w") as f:
-        for c in cases:
-            f.write(json.dumps(c) + "\n")
+def run_syn(out, path, seed, run_label):
     p = vlib.run_bin("syncheck", ["--threads", str(vlib.NCPU)], stdin_path=path, env={"VERIF_SEED": str(seed)}, timeout=7200)
     if p.returncode != 0:
         raise vlib.ToolError("syncheck crashed: " + p.stderr.decode()[-2000:])
@@ -30,13 +25,26 @@ def run_syn(out, cases, seed, name, run_label):
     return [r for r in recs if r["kind"] == "summary"][0]
 
 
+def dump(results, name):
+    """streams the programs printed by the TLC runs into one ndjson file (never held in memory)"""
+    d = vlib.workdir("c04-" + name)
+    path = os.path.join(d, "programs.ndjson")
+    n = 0
+    with open(path, "w") as f:
+        for r in results:
+            for body in r.raw_cases():
+                f.write(body + "\n")
+                n += 1
+    return path, n
+
+
 def run(out, tier, seed):
-    cases = []
+    main = []
     for cfg in (["GleamSyn_ops.cfg", "GleamSyn_b2.cfg"] if tier == "quick" else ["GleamSyn_ops.cfg", "GleamSyn_b3.cfg"]):
         r = vlib.tlc("GleamSyn", cfg, workers=8, timeout=3000, heap="8g", coverage=(cfg == "GleamSyn_b2.cfg"))
         vlib.require_ok(r, cfg)
         out.add_tlc(r, "MC Balanced + GEN (BFS) " + cfg)
-        cases += list(r.cases())
+        main.append(r)
     nsim, per = (4, 50) if tier == "quick" else (12, 2500)
     jobs = [dict(module="GleamSyn", cfg="GleamSyn_sim.cfg", workers=1, simulate=per, depth=3000, seed=seed * 1000 + i, timeout=3000, name=f"gs-sim-{i}")
             for i in range(nsim)]
@@ -48,14 +56,17 @@ def run(out, tier, seed):
         vlib.require_ok(r, j["name"])
         out.add_tlc(r, "GEN simulation " + j["cfg"])
         if j["cfg"] == "GleamSyn_sim.cfg":
-            cases += list(r.cases())
+            main.append(r)
         else:
-            extra[j["cfg"][len("GleamSyn_un_"):-4]] = list(r.cases())
-    s = run_syn(out, cases, seed, "main", "main")
-    for p, cs in extra.items():
-        if not cs:
+            extra[j["cfg"][len("GleamSyn_un_"):-4]] = r
+    path, n = dump(main, "main")
+    vlib.log(f"C04: {n} programs")
+    s = run_syn(out, path, seed, "main")
+    for p, r in extra.items():
+        path, n = dump([r], p)
+        if not n:
             raise vlib.ToolError("no programs for unmasked production " + p)
-        s2 = run_syn(out, cs, seed, p, "unmasked:" + p)
+        s2 = run_syn(out, path, seed, "unmasked:" + p)
         out.cov["evaluations"] += s2["parses"]
     out.cov["traces_validated_against_impl"] += s["programs"]
     out.cov["evaluations"] += s["parses"]
@@ -73,4 +84,8 @@ def run(out, tier, seed):
 
 def replay(out, path):
     d = json.load(open(path))
-    run_syn(out, [d["detail"]["case"]], 1, "replay", d["features"].get("run", "main"))
+    wd = vlib.workdir("c04-replay")
+    pp = os.path.join(wd, "programs.ndjson")
+    with open(pp, "w") as f:
+        f.write(json.dumps(d["detail"]["case"]) + "\n")
+    run_syn(out, pp, 1, d["features"].get("run", "main"))
